@@ -26,6 +26,10 @@ def W():
         "cross", {"s": V2},
         {"p.do": [S(deps=["x", "y"])], "q.do": [S(deps=["y", "x"], out="file")], "x.do": [S(deps=["s"])], "y.do": [S(deps=["s"])]},
         ["p", "q", "x", "y"], ["p", "q"])
+    w["cross-src"] = World(   # as cross, but each list starts with a source: its "job" is complete at once (a ready future)
+        "cross-src", {"s": V2},
+        {"p.do": [S(deps=["s", "x", "y"])], "q.do": [S(deps=["s", "y", "x"], out="file")], "x.do": [S(deps=["s"])], "y.do": [S(deps=["s"])]},
+        ["p", "q", "x", "y"], ["p", "q"])
     w["failfan"] = World(
         "failfan", {"s": V2, "flag": ["1", "0"]},
         {"top.do": [S(deps=["f", "h"])], "f.do": [S(deps=["s"], fail="flag")], "h.do": [S(deps=["s"], out="file")]},
